@@ -1,2 +1,108 @@
-(* C47 placeholder *)
-From SAV.orm Require Import Autoflush AutoflushSites.
+(* C47 - with autoflush on, queries see all pending changes.
+   Statements only; every proof is [exact <lemma>] / a one-line application.
+
+   [run ops (init pr cr af nc0 np0)]: the Session after any history of pending changes (add child, add
+   parent, set val, re-parent, delete), explicit flushes and queries on tables holding [pr] / [cr]. *)
+From Coq Require Import List ZArith NArith Bool String.
+Import ListNotations.
+From SAV.orm Require Import Autoflush AutoflushProofs AutoflushWf AutoflushSites.
+
+Definition rows_below (cr : rows) (n : N) : Prop := forall i r, row_get i cr = Some r -> (i < n)%N.
+
+(* GUARDED: with autoflush enabled (session flag on, not inside no_autoflush, no autoflush=False option on an
+   ORM statement, not inside a flush) every entry point - ORM select, column select, count, Core select,
+   scalars, legacy Query, get, many-to-one lazy load, collection load, refresh - returns exactly what it
+   returns after an explicit flush.  [guardq]: lazy / collection loads are issued on a persistent object,
+   get does not hit an object marked deleted, refresh is issued on an object without changes of its own. *)
+Theorem c47_autoflush_equiv_explicit_flush_guarded : forall pr cr af nc0 np0 ops, rows_below cr nc0 ->
+  let s := run ops (init pr cr af nc0 np0) in
+  forall k m a, enabled k m s = true -> guardq k a s = true ->
+  snd (exec k m a s) = snd (exec k m a (flush s)).
+Proof.
+  intros pr cr af nc0 np0 ops H s k m a.
+  exact (autoflush_equiv_explicit_flush k m a s (wf_nodup s (wf_run ops _ (wf_init pr cr af nc0 np0 H)))).
+Qed.
+Print Assumptions c47_autoflush_equiv_explicit_flush_guarded.
+
+(* REFUTED outside the guard: a lazy load / collection load on a PENDING object returns nothing although
+   after a flush it returns the related object(s) (relationship.load_on_pending is off by default) *)
+Theorem c47_autoflush_equiv_explicit_flush_refuted :
+  (exists ops, let s := run ops (init [1%N] [] true 1 2) in
+     enabled LazyP MDefault s = true /\ snd (exec LazyP MDefault 1 s) <> snd (exec LazyP MDefault 1 (flush s))) /\
+  (exists ops, let s := run ops (init [1%N] [(1%N, (10%Z, 1%N))] true 2 2) in
+     enabled Children MDefault s = true /\ snd (exec Children MDefault 2 s) <> snd (exec Children MDefault 2 (flush s))).
+Proof.
+  split.
+  - exists [AddC 10 1]. vm_compute. split; [reflexivity|discriminate].
+  - exists [Query Get MDefault 1; AddP; SetPid 1 2]. vm_compute. split; [reflexivity|discriminate].
+Qed.
+Print Assumptions c47_autoflush_equiv_explicit_flush_refuted.
+
+(* the statement-executing entry points run on the flushed state: the query itself is evaluated exactly as
+   with autoflush off on [flush s] *)
+Theorem c47_query_runs_on_flushed_state : forall k m a s, enabled k m s = true ->
+  match k with SelEnt | SelCol | Count | Core | Scalars | Legacy => True | _ => False end ->
+  exec k m a s = exec k MNoAutoflushBlock a (flush s).
+Proof.
+  intros k m a s E K. destruct k; try contradiction; unfold exec, autoflush_then; rewrite E; reflexivity.
+Qed.
+Print Assumptions c47_query_runs_on_flushed_state.
+
+(* ... and the flushed tables reflect every pending add, modification, re-parent and delete: row i of
+   table c after the flush is what the session's object i says (pending: its values; deleted: no row;
+   modified: its values; otherwise the stored row) *)
+Theorem c47_flush_applies_every_pending_change : forall pr cr af nc0 np0 ops, rows_below cr nc0 ->
+  let s := run ops (init pr cr af nc0 np0) in
+  forall i, row_get i (dbc (flush s)) = logical s i.
+Proof.
+  intros pr cr af nc0 np0 ops H s i.
+  exact (flush_applies_pending s i (wf_nodup s (wf_run ops _ (wf_init pr cr af nc0 np0 H)))).
+Qed.
+Print Assumptions c47_flush_applies_every_pending_change.
+
+Theorem c47_flush_idempotent : forall s, flush (flush s) = flush s.
+Proof. exact flush_idem. Qed.
+Print Assumptions c47_flush_idempotent.
+
+(* autoflush off (Session(autoflush=False), a no_autoflush block, the autoflush=False option on an ORM
+   statement, or while flushing): the entry point writes nothing *)
+Theorem c47_disabled_writes_nothing : forall k m a s, enabled k m s = false ->
+  dbc (fst (exec k m a s)) = dbc s /\ dbp (fst (exec k m a s)) = dbp s.
+Proof. exact disabled_writes_nothing. Qed.
+Print Assumptions c47_disabled_writes_nothing.
+
+(* object ids stay unique and a pending object has no row, over every history *)
+Theorem c47_session_well_formed : forall pr cr af nc0 np0 ops, rows_below cr nc0 ->
+  WF (run ops (init pr cr af nc0 np0)).
+Proof. intros pr cr af nc0 np0 ops H. exact (wf_run ops _ (wf_init pr cr af nc0 np0 H)). Qed.
+Print Assumptions c47_session_well_formed.
+
+(* T1: for every table of references extracted from the source that passes the boolean check [covers]
+   (per-run obligation gen_covers), each documented entry point reaches a function that calls
+   Session._autoflush through its call chain *)
+Theorem c47_entry_points_total : forall t, covers t = true ->
+  forall e, In e documented -> exists ch, chain_of e = Some ch /\ chain_valid t ch = true.
+Proof. exact entry_points_total. Qed.
+Print Assumptions c47_entry_points_total.
+
+(* ---- non-vacuity ---- *)
+Example c47_ex_rows_below : rows_below [(1%N, (10%Z, 1%N)); (2%N, (20%Z, 0%N))] 3.
+Proof.
+  intros i r H. cbn [row_get] in H.
+  destruct (N.eqb_spec 1 i) as [<-|]; [exact eq_refl|]. destruct (N.eqb_spec 2 i) as [<-|]; [exact eq_refl|discriminate].
+Qed.
+(* child 1 loaded and modified, a child added, child 2 re-parented and another deleted: every query kind is
+   enabled and inside the guard; the entity query sees all of it *)
+Definition ex_s : st :=
+  run [Query Get MDefault 1; Query Get MDefault 2; Query GetP MDefault 1; SetVal 1 25; AddC 15 1; SetPid 2 1]
+      (init [1%N] [(1%N, (10%Z, 1%N)); (2%N, (20%Z, 0%N))] true 3 2).
+Example c47_ex_guard : forallb (fun k => enabled k MDefault ex_s && guardq k 1 ex_s)
+  [SelEnt; SelCol; Count; Core; LazyP; Children; GetP; Legacy; Scalars] = true /\ guardq Get 7 ex_s = true.
+Proof. vm_compute. split; reflexivity. Qed.
+Example c47_ex_sees_pending :
+  snd (exec SelCol MDefault 1 ex_s) = [[1; 25]; [2; 20]; [3; 15]]%Z /\
+  snd (exec SelCol MNoAutoflushBlock 1 ex_s) = [[1; 10]]%Z.
+Proof. vm_compute. split; reflexivity. Qed.
+Example c47_ex_chain : chain_valid
+  [("session.Session.refresh", ["_autoflush"; "_load_on_ident"])]%string [("session.Session.refresh", "refresh")]%string = true.
+Proof. reflexivity. Qed.
